@@ -2,6 +2,7 @@ import Rb.Alloc
 import Rb.Clone
 import Hb.Round
 import Hb.Disk
+import Hb.File
 
 /-! # C06 — property theorems (statements only; proofs live in the family libraries) -/
 
@@ -89,6 +90,24 @@ theorem serialize_after_noop :
     (hs : (a.storage.getD []).length < a.threshold ∨ (a.storage.getD []).length = 0),
     ∃ x, hibernate a = .ok x ∧ ∃ m, serialize x = .panic m :=
   @Hb.serialize_after_noop
+end
+
+section
+open HbF
+
+/-- byte level: a complete file written by `Serialize` reads back as what was written -/
+theorem deserialize_serialize :
+    ∀ (a b : Nat) (bufs : List (List Nat)),
+    deserialize bufs.length (serialize a b bufs) = some (a, b, bufs) :=
+  @HbF.deserialize_serialize
+
+/-- byte level: EVERY strict prefix of a serialized allocator is refused (a truncated hibernation file never
+yields an allocator) -/
+theorem prefix_fails :
+    ∀ (a b : Nat) (bufs : List (List Nat)) (n : Nat),
+    n < (serialize a b bufs).length →
+    deserialize bufs.length ((serialize a b bufs).take n) = none :=
+  @HbF.prefix_fails
 end
 
 end Props.C06
